@@ -140,7 +140,11 @@ func extractZipWatched(zb []byte, out string, st archiver.ExtractSettings) (*arc
 }
 
 func copyTree(src, dst string) error {
-	return exec.Command("cp", "-a", src, dst).Run()
+	out, err := exec.Command("cp", "-a", src, dst).CombinedOutput()
+	if err != nil && os.Getenv("WV_DEBUG_CP") != "" {
+		fmt.Fprintf(os.Stderr, "cp -a failed: %v: %s\n", err, trunc(string(out), 300))
+	}
+	return err
 }
 
 func c19One(env *Env, m *wvlib.Model, c *C19Case) {
@@ -251,7 +255,10 @@ func c19One(env *Env, m *wvlib.Model, c *C19Case) {
 					// the state a crash would leave behind: the resume file first (every entry it
 					// vouches for is complete and stays so), then the directory, which other workers
 					// keep writing to while it is copied (partially written later entries included)
-					e1 := exec.Command("cp", resume, snapDir+".resume").Run()
+					var e1 error
+					if _, serr := os.Stat(resume); serr == nil {
+						e1 = exec.Command("cp", resume, snapDir+".resume").Run()
+					} // else: no entry vouched for yet (a big first entry still in progress): a crash state without a resume file
 					e2 := copyTree(out, snapDir)
 					if e1 != nil || e2 != nil {
 						// the copy itself failed (cp skips what it cannot open and exits non-zero, e.g. when the
